@@ -42,10 +42,17 @@ def main():
             shutil.rmtree(out, ignore_errors=True)
         meta["final"] = final
         json.dump(meta, open(mp, "w"), indent=1)
+        print(name, {k: v.get("verdict") for k, v in final.items() if isinstance(v, dict)}, flush=True)
+    # the table always lists every kept change (from the stored outcomes), also after a partial re-run
+    for name in sorted(os.listdir(os.path.join(HERE, "seeded"))):
+        mp = os.path.join(HERE, "seeded", name, "meta.json")
+        if not os.path.exists(mp):
+            continue
+        meta = json.load(open(mp))
+        final = meta.get("final") or meta.get("checks") or {}
         summ = (meta.get("agent_meta", {}).get("summary") or "").replace("|", "\\|")
         res = "; ".join(f"{k}: {v['verdict']}" + (f" (`{v['signatures'][0][:60]}`)" if isinstance(v, dict) and v.get("signatures") else "") for k, v in final.items() if isinstance(v, dict)) or "patch no longer applies (see note)"
         rows.append(f"| {name} | {summ[:170]} | {res} |")
-        print(rows[-1], flush=True)
     open(os.path.join(HERE, "seeded", "TABLE.md"), "w").write("| id | change | quick check of the property |\n|----|--------|------|\n" + "\n".join(rows) + "\n")
 
 
